@@ -192,6 +192,7 @@ type Harness struct {
 	Doc       string
 	ReplayIters int
 	BufSensitive bool
+	RealSize     bool
 }
 
 func parseRange(s string) []int64 {
@@ -284,6 +285,8 @@ func (g *Engine) Harnesses(tier string) []*Harness {
 						h.Expect = fields[1]
 					case "bufsensitive":
 						h.BufSensitive = true
+					case "realsize":
+						h.RealSize = true
 					case "replay-iters":
 						h.ReplayIters, _ = strconv.Atoi(fields[1])
 					}
